@@ -26,7 +26,7 @@ impl Unchoke {
     pub fn check(length: usize) -> Result<usize, Error> {
         match length == Unchoke::LEN as usize {
             true => Ok(Unchoke::FULL_SIZE),
-            false => Err(Error::Incomplete("Unchoke")),
+            false => Err(Error::InvalidLength("Unchoke")),
         }
     }
 }
